@@ -383,7 +383,7 @@ class GeminiServerProtocol(asyncio.Protocol):
                     body=response.body,
                     url=request.normalized_url,
                 )
-        except Exception as e:
+        except (Exception, asyncio.CancelledError) as e:
             # Catch any handler errors and return 40 TEMPORARY FAILURE
             logger.error(
                 "handler_error",
@@ -427,7 +427,7 @@ class GeminiServerProtocol(asyncio.Protocol):
             # Send the response
             self._send_response(response)
 
-        except Exception as e:
+        except (Exception, asyncio.CancelledError) as e:
             logger.error(
                 "async_handler_error",
                 client_ip=client_ip,
@@ -464,7 +464,7 @@ class GeminiServerProtocol(asyncio.Protocol):
             # Middleware allowed request - continue routing
             self._route_request(request, client_ip)
 
-        except Exception as e:
+        except (Exception, asyncio.CancelledError) as e:
             logger.error(
                 "middleware_error",
                 client_ip=client_ip,
@@ -621,7 +621,7 @@ class GeminiServerProtocol(asyncio.Protocol):
 
             self._start_titan_upload(client_ip)
 
-        except Exception as e:
+        except (Exception, asyncio.CancelledError) as e:
             logger.error(
                 "middleware_error",
                 client_ip=client_ip,
@@ -680,7 +680,7 @@ class GeminiServerProtocol(asyncio.Protocol):
 
             self._send_response(response)
 
-        except Exception as e:
+        except (Exception, asyncio.CancelledError) as e:
             logger.error(
                 "titan_upload_error",
                 client_ip=client_ip,
